@@ -62,6 +62,7 @@ def Forest.wf (f : Forest) : Bool :=
 mutual
   def VE.refs : VE → List Nat
     | .atom _ => []
+    | .fresh => []
     | .ref id => [id]
     | .node _ _ _ _ items => refsItems items
   def refsItems : List (Key × VE) → List Nat
@@ -83,17 +84,35 @@ def Op.refs : Op → List Nat
   | .rebind _ pairs _ => pairs.flatMap (fun p => p.2.2.refs)
   | _ => []
 
-/-- F30: an offered node object that would be *moved* (it believes it has no parent) and that
-contains the container written to: pyglove builds a cycle and its path update never
+/-- F30 (and its stale-parent variant F33): an offered node object that would be *moved* (it
+believes it has no parent) and that contains the written container or any of its *believed*
+ancestors: pyglove builds a cycle of parents and its path update / notification walk never
 terminates. -/
 def divergent (f : Forest) (op : Op) : Bool :=
   match op.target? with
   | none => false
   | some t =>
+    let chain := chainFrom f (f.ids.length + 1) t
     op.refs.any (fun id =>
       match f.find? id with
-      | some (.node m its) => m.parent.isNone && (Tree.node m its).ids.contains t
+      | some (.node m its) => m.parent.isNone && chain.any (fun c => (Tree.node m its).ids.contains c)
       | _ => false)
+
+/-- F32: an existing child of a list offered as an *insertion* into that very list: when the
+insertion index is the child's own index, `_relocate_if_symbolic` keeps the very node and the
+list then holds one object twice. (Excluded for every index: the glue never produces it.) -/
+def insertsOwnChild (f : Forest) : Op → Bool
+  | .lInsert t _ (.ref id) => (f.metaOf? id).any (fun m => m.parent == some t)
+  | .lSetSlice t _ _ _ vs => vs.any (fun v => match v with
+      | .ref id => (f.metaOf? id).any (fun m => m.parent == some t)
+      | _ => false)
+  | .rebind t pairs _ => pairs.any (fun p => match p.2.2, p.2.1 with
+      | .ref id, true =>
+        (match (f.find? t).bind (fun tr => tr.query p.1.dropLast) with
+         | some (.node pm _) => (f.metaOf? id).any (fun m => m.parent == some pm.id)
+         | _ => false)
+      | _, _ => false)
+  | _ => false
 
 /-- every offered node object is offered once (the glue guarantees it; a second use of a moved
 object would find it inside a value under construction, which the forest cannot address). -/
@@ -113,7 +132,7 @@ def usesDefectF03 (notifyOn : Bool) : Op → Bool
   | _ => false
 
 def Admissible (cfg : Cfg) (f : Forest) (notifyOn : Bool) (op : Op) : Bool :=
-  !divergent f op && refsDistinct op &&
+  !divergent f op && refsDistinct op && !insertsOwnChild f op &&
     (cfg.reindexOnReorder || !usesDefectF02 op) &&
     (cfg.reindexOnMutate || !usesDefectF03 notifyOn op)
 
